@@ -113,3 +113,120 @@ inline Bytes raw_bytes(Tape &t, Stats &st)
 }
 
 } // namespace mal
+
+namespace mal {
+
+// rdata name for CNAME/MX/SRV answers: mostly "looks like encoded data" so that the client's decoders run
+inline void answer_name(Tape &t, Bytes &m, Stats &st, size_t qname_off)
+{
+	(void)qname_off;
+	static const char PFX[] = "hijkHIJKtsuvrxz";
+	switch (t.pick({6, 2, 2, 1})) {
+	case 0: {   // well-formed: prefix + encoded-looking labels + ".xy"
+		size_t total = t.chance(1, 3) ? 200 + t.below(54) : 5 + t.below(120);
+		size_t used = 0; bool first = true;
+		while (used < total) {
+			size_t l = std::min<size_t>(std::min<size_t>(63, total - used), 1 + (t.chance(2, 3) ? 56 : t.below(63)));
+			m.push_back((uint8_t)l);
+			for (size_t i = 0; i < l; i++) { uint8_t c = first && i == 0 ? (uint8_t)PFX[t.below(sizeof PFX - 1)] : label_byte(t, (int)t.pick({8, 2, 2, 1})); m.push_back(c); }
+			first = false; used += l + 1;
+		}
+		m.push_back(2); m.push_back('a' + (uint8_t)t.below(26)); m.push_back('a' + (uint8_t)t.below(25)); m.push_back(0);
+		st.hit("ans:name-encoded"); break;
+	}
+	case 1: hostile_name(t, m, "", std::string(1, PFX[t.below(sizeof PFX - 1)]), st); st.hit("ans:name-hostile"); break;
+	case 2: {   // 255-octet name
+		size_t start = m.size();
+		m.push_back(63); m.push_back((uint8_t)PFX[t.below(8)]); for (int i = 0; i < 62; i++) m.push_back(label_byte(t, 0));
+		while (m.size() - start < 250) { size_t l = std::min<size_t>(63, 253 - (m.size() - start)); if (l < 1) break; m.push_back((uint8_t)l); for (size_t i = 0; i < l; i++) m.push_back(label_byte(t, 0)); }
+		m.push_back(0); st.hit("ans:name-255"); break;
+	}
+	default: m.push_back(0); st.hit("ans:name-root"); break;
+	}
+}
+
+// A hostile *answer* datagram for the client.  It echoes id and question of `q` (so that the client takes it for the
+// reply to its latest query) unless the generator decides otherwise.
+inline Bytes hostile_answer(Tape &t, const refproto::Query &q, Stats &st, int *nrec_out = nullptr)
+{
+	Bytes m;
+	bool match_id = !t.chance(1, 12);
+	put16(m, match_id ? q.id : (uint16_t)(q.id + 1 + t.below(5000)));
+	static const uint16_t FL[] = {0x8400, 0x8180, 0x8402, 0x8403, 0x8405, 0x0400, 0x8600};
+	size_t fk = t.pick({10, 3, 2, 2, 1, 1, 1});
+	put16(m, FL[fk]); if (fk >= 2) st.hit(fk == 5 ? "ans:qr-clear" : "ans:rcode-or-tc");
+	size_t qk = t.pick({12, 1, 1});
+	put16(m, qk == 0 ? 1 : (qk == 1 ? 0 : 2));
+	size_t ancount_pos = m.size();
+	put16(m, 0); put16(m, t.chance(1, 10) ? (uint16_t)t.below(3) : 0); put16(m, t.chance(1, 10) ? (uint16_t)t.below(3) : 0);
+	size_t qoff = m.size();
+	if (qk != 1) {
+		if (t.chance(1, 15)) { hostile_name(t, m, "", std::string(1, q.name.empty() ? 'p' : q.name[0]), st); st.hit("ans:question-hostile"); }
+		else { for (auto &l : refdns::split_labels(q.name)) { m.push_back((uint8_t)l.size()); m.insert(m.end(), l.begin(), l.end()); } m.push_back(0); }
+		uint16_t qt = q.qtype; if (t.chance(1, 15)) { static const uint16_t TY[] = {10, 65399, 16, 33, 15, 5, 1}; qt = TY[t.below(7)]; st.hit("ans:question-type-changed"); }
+		put16(m, qt); put16(m, 1);
+	}
+	uint16_t rtype = q.qtype;
+	if (q.qtype == refdns::T_A) rtype = t.chance(1, 5) ? refdns::T_A : refdns::T_CNAME;
+	if (t.chance(1, 12)) { static const uint16_t TY[] = {10, 65399, 16, 33, 15, 5, 1, 2, 41}; rtype = TY[t.below(9)]; st.hit("ans:record-type-differs"); }
+	int nrec = 1;
+	if (rtype == refdns::T_MX || rtype == refdns::T_SRV) { switch (t.pick({4, 3, 2, 2})) { case 0: nrec = 1 + (int)t.below(4); break; case 1: nrec = 5 + (int)t.below(30); break; case 2: nrec = 240 + (int)t.below(25); break; default: nrec = 17 + (int)t.below(60); break; } }
+	else nrec = (int)t.pick({1, 10, 1, 1});
+	int prefmode = (int)t.pick({5, 2, 1, 1, 1});   // 0 10,20,..  1 shuffled  2 duplicates  3 extreme values  4 random
+	for (int k = 0; k < nrec; k++) {
+		if (t.chance(1, 25)) answer_name(t, m, st, qoff); else put16(m, (uint16_t)(0xC000 | qoff));
+		put16(m, rtype); put16(m, t.chance(1, 20) ? (uint16_t)t.below(65536) : 1); put32(m, t.chance(1, 2) ? 0 : t.u32());
+		size_t rdlen_pos = m.size(); put16(m, 0);
+		size_t rd_start = m.size();
+		if (rtype == refdns::T_MX || rtype == refdns::T_SRV) {
+			uint16_t pref;
+			switch (prefmode) { case 0: pref = (uint16_t)(10 * (k + 1)); break; case 1: pref = (uint16_t)(10 * (1 + (k * 7919) % std::max(1, nrec))); break; case 2: pref = (uint16_t)(10 * (1 + k / 2)); break;
+			case 3: { static const uint16_t X[] = {0, 5, 10, 2480, 2490, 2500, 2510, 65530, 65535, 15}; pref = X[t.below(10)]; break; } default: pref = (uint16_t)t.below(65536); break; }
+			put16(m, pref);
+			if (rtype == refdns::T_SRV) { put16(m, 10); put16(m, 5060); }
+			answer_name(t, m, st, qoff);
+		} else if (rtype == refdns::T_CNAME || rtype == 2) answer_name(t, m, st, qoff);
+		else if (rtype == refdns::T_TXT) {
+			static const char PFX[] = "tsuvrTSUVRhx";
+			size_t total; switch (t.pick({3, 3, 2, 1})) { case 0: total = t.below(60); break; case 1: total = t.below(600); break; case 2: total = 4000 + t.below(400); break; default: total = 20000 + t.below(45000); break; }
+			size_t done = 0; bool first = true;
+			while (done < total) {
+				size_t l = std::min<size_t>(255, total - done); if (t.chance(1, 4)) l = 1 + t.below((uint32_t)l);
+				uint8_t lenbyte = (uint8_t)l; if (t.chance(1, 20)) { lenbyte = (uint8_t)std::min<size_t>(255, l + 1 + t.below(40)); st.hit("ans:txt-string-overruns"); }
+				m.push_back(lenbyte);
+				int cls = (int)t.pick({6, 2, 2, 2});
+				for (size_t i = 0; i < l; i++) m.push_back(first && i == 0 ? (uint8_t)PFX[t.below(sizeof PFX - 1)] : label_byte(t, cls));
+				first = false; done += l;
+			}
+			if (total > 4000) st.hit("ans:txt-larger-than-4096");
+		} else {   // NULL / PRIVATE / A / other: raw bytes
+			size_t n; switch (t.pick({4, 3, 2, 1, 1})) { case 0: n = t.below(40); break; case 1: n = t.below(1500); break; case 2: n = 4090 + t.below(12); break; case 3: n = 5000 + t.below(4000); break; default: n = 30000 + t.below(30000); break; }
+			Bytes b = t.bytes_of(n);
+			if (t.chance(1, 2) && b.size() >= 2) { b[0] = (uint8_t)(0x80 | t.below(128)); b[1] = (uint8_t)t.below(256); }
+			m.insert(m.end(), b.begin(), b.end());
+			if (n > 4096) st.hit("ans:null-larger-than-4096");
+		}
+		size_t rdlen = m.size() - rd_start;
+		size_t lie = rdlen;
+		switch (t.pick({14, 1, 1, 1, 1})) { case 1: lie = rdlen + 1 + t.below(4096); break; case 2: lie = rdlen > 0 ? t.below((uint32_t)rdlen) : 0; break; case 3: lie = 65535; break; case 4: lie = 0; break; default: break; }
+		if (lie != rdlen) st.hit("ans:rdlength-lies");
+		if (lie > 65535) lie = 65535;
+		m[rdlen_pos] = (uint8_t)(lie >> 8); m[rdlen_pos + 1] = (uint8_t)lie;
+		if (m.size() > 64000) { nrec = k + 1; break; }
+	}
+	uint16_t an = (uint16_t)nrec;
+	switch (t.pick({12, 1, 1, 1})) { case 1: an = 0; st.hit("ans:ancount-zero"); break; case 2: an = (uint16_t)(nrec + 1 + t.below(300)); st.hit("ans:ancount-too-large"); break; case 3: an = 65535; st.hit("ans:ancount-too-large"); break; default: break; }
+	m[ancount_pos] = (uint8_t)(an >> 8); m[ancount_pos + 1] = (uint8_t)an;
+	if (nrec >= 17) st.hit("ans:17+records");
+	if (nrec >= 240) st.hit("ans:240+records");
+	switch (t.pick({10, 1, 1})) {
+	case 1: if (m.size() > 13) { m.resize(12 + t.below((uint32_t)(m.size() - 12))); st.hit("ans:truncated"); } break;
+	case 2: { size_t g = 1 + t.below(200); for (size_t i = 0; i < g; i++) m.push_back((uint8_t)t.below(256)); st.hit("ans:trailing-garbage"); break; }
+	default: break;
+	}
+	if (m.size() > 65000) m.resize(65000);
+	if (nrec_out) *nrec_out = nrec;
+	return m;
+}
+
+} // namespace mal
